@@ -215,4 +215,146 @@ example : ((exec (memset32_s 100 4 7 2 none)
       { data := fun _ => 0, mapped := fun _ => true, rd := fun _ => true, wr := fun _ => true }).toOption.map
         (fun x => (x.1, x.2.events))) = some (memset32Code 100 4 2, [.handler .mem ESNOSPC]) := by decide
 
+/-! ## memcpy_s, memmove_s -/
+
+/-- src/mem/memcpy_s.c: `@retval EOK when operation is successful or slen = 0`, `ESNULLP when dest/src is NULL POINTER`,
+`ESZEROL when dmax = 0`, `ESLEMAX when dmax/slen > RSIZE_MAX_MEM`, `ESNOSPC when dmax < slen`,
+`ESOVRLP when src memory overlaps dst` (the code: `CHK_OVRLP_BUTSAME`, "overlap is disallowed, but allow dest==src" —
+a function of the ADDRESSES and sizes only, `ovrlpButSame_iff`) -/
+def memcpyCode (dest dmax src slen : Nat) : Nat :=
+  if slen = 0 then EOK
+  else if dest = 0 then ESNULLP
+  else if dmax = 0 then ESZEROL
+  else if dmax > RSIZE_MAX_MEM then ESLEMAX
+  else if src = 0 then ESNULLP
+  else if slen > dmax then (if slen > RSIZE_MAX_MEM then ESLEMAX else ESNOSPC)
+  else if ovrlpButSame 1 dest dmax src slen then ESOVRLP
+  else EOK
+
+/-- `CHK_OVRLP_BUTSAME` on byte operands that do not wrap around the address space: the two regions
+`[dest, dest+dmax)` and `[src, src+slen)` intersect and the pointers differ -/
+theorem ovrlpButSame_iff (dest dmax src slen : Nat) (hd : dest + dmax < U64) (hs : src + slen < U64) :
+    ovrlpButSame 1 dest dmax src slen = true ↔ dest ≠ src ∧ dest < src + slen ∧ src < dest + dmax := by
+  simp only [ovrlpButSame, Nat.mul_one, Nat.mod_eq_of_lt hd, Nat.mod_eq_of_lt hs, Bool.or_eq_true, Bool.and_eq_true,
+    decide_eq_true_eq]
+  omega
+
+theorem memcpy_s_code (dest dmax src slen : Nat) :
+    EV (memcpy_s dest dmax src slen none none) (Is .mem (memcpyCode dest dmax src slen)) := by
+  by_cases h1 : slen = 0
+  · simp only [memcpy_s, memcpyCode, h1, if_true]; exact is_eok
+  by_cases h2 : dest = 0
+  · simp only [memcpy_s, memcpyCode, h1, h2, if_true, if_false]; exact is_failM _ (by decide)
+  by_cases h3 : dmax = 0
+  · simp only [memcpy_s, memcpyCode, h1, h2, h3, if_true, if_false]; exact is_failM _ (by decide)
+  by_cases h4 : dmax > RSIZE_MAX_MEM
+  · simp only [memcpy_s, memcpyCode, chkDmaxMemB, h1, h2, h3, h4, if_true, if_false]; exact is_failM _ (by decide)
+  by_cases h5 : src = 0
+  · simp only [memcpy_s, memcpyCode, chkDmaxMemB, h1, h2, h3, h4, h5, if_true, if_false]
+    exact is_handleMemErrorB _ _ _ _ (by decide)
+  by_cases h6 : slen > dmax
+  · by_cases h7 : slen > RSIZE_MAX_MEM
+    · simp only [memcpy_s, memcpyCode, chkDmaxMemB, h1, h2, h3, h4, h5, h6, h7, if_true, if_false]
+      exact is_handleMemErrorB _ _ _ _ (by decide)
+    · simp only [memcpy_s, memcpyCode, chkDmaxMemB, h1, h2, h3, h4, h5, h6, h7, if_true, if_false]
+      exact is_handleMemErrorB _ _ _ _ (by decide)
+  by_cases h8 : ovrlpButSame 1 dest dmax src slen = true
+  · simp only [memcpy_s, memcpyCode, chkDmaxMemB, exceeds, Bool.false_eq_true, h1, h2, h3, h4, h5, h6, h8, if_true, if_false]
+    exact is_clear_report (q_mem_prim_set _ _ _ _) _ (by decide)
+  · simp only [memcpy_s, memcpyCode, chkDmaxMemB, exceeds, Bool.false_eq_true, h1, h2, h3, h4, h5, h6, h8, if_true, if_false]
+    exact is_work_eok (q_mem_prim_move _ _ _)
+
+/-- memcpy_s, object sizes unknown: the code is `memcpyCode` of the arguments (addresses and sizes; no memory content) -/
+theorem memcpy_s_meaning (dest dmax src slen : Nat) (st : St) (r : Nat) (st' : St)
+    (he : exec (memcpy_s dest dmax src slen none none) st = .ok (r, st')) :
+    r = memcpyCode dest dmax src slen ∧
+      ((r = EOK ∧ st'.events = st.events) ∨ (r ≠ EOK ∧ st'.events = st.events ++ [.handler .mem r])) :=
+  Is.sound (memcpy_s_code ..) st r st' he
+
+/-- EOK exactly when no documented constraint is violated (`slen ≤ RSIZE_MAX_MEM` follows) -/
+theorem memcpyCode_eok_iff (dest dmax src slen : Nat) :
+    memcpyCode dest dmax src slen = EOK ↔
+      slen = 0 ∨ (dest ≠ 0 ∧ dmax ≠ 0 ∧ dmax ≤ RSIZE_MAX_MEM ∧ src ≠ 0 ∧ slen ≤ dmax ∧
+        ovrlpButSame 1 dest dmax src slen = false) := by
+  have e1 : ESNULLP ≠ EOK := by decide
+  have e2 : ESLEMAX ≠ EOK := by decide
+  have e3 : ESNOSPC ≠ EOK := by decide
+  have e4 : ESZEROL ≠ EOK := by decide
+  have e5 : ESOVRLP ≠ EOK := by decide
+  unfold memcpyCode
+  repeat' split
+  all_goals simp only [e1, e2, e3, e4, e5, false_iff, true_iff, not_and, not_or, ne_eq, Bool.not_eq_false]
+  all_goals first | omega | grind
+
+/-- the doc comment's "regions that overlap" reading of `memcpyCode_eok_iff` for operands that do not wrap: dest == src
+(a complete overlap) is NOT rejected — the code's own comment says so, the `@pre` line does not -/
+theorem memcpyCode_eok_iff_regions (dest dmax src slen : Nat) (hd : dest + dmax < U64) (hs : src + slen < U64) :
+    memcpyCode dest dmax src slen = EOK ↔
+      slen = 0 ∨ (dest ≠ 0 ∧ dmax ≠ 0 ∧ dmax ≤ RSIZE_MAX_MEM ∧ src ≠ 0 ∧ slen ≤ dmax ∧
+        (dest = src ∨ src + slen ≤ dest ∨ dest + dmax ≤ src)) := by
+  rw [memcpyCode_eok_iff]
+  have h := ovrlpButSame_iff dest dmax src slen hd hs
+  have : ovrlpButSame 1 dest dmax src slen = false ↔ (dest = src ∨ src + slen ≤ dest ∨ dest + dmax ≤ src) := by
+    rw [← Bool.not_eq_true, h]; omega
+  rw [this]
+
+/-- src/mem/memmove_s.c: as memcpy_s without the overlap line -/
+def memmoveCode (dest dmax src slen : Nat) : Nat :=
+  if slen = 0 then EOK
+  else if dest = 0 then ESNULLP
+  else if dmax = 0 then ESZEROL
+  else if dmax > RSIZE_MAX_MEM then ESLEMAX
+  else if src = 0 then ESNULLP
+  else if slen > dmax then (if slen > RSIZE_MAX_MEM then ESLEMAX else ESNOSPC)
+  else EOK
+
+theorem memmove_s_code (dest dmax src slen : Nat) :
+    EV (memmove_s dest dmax src slen none none) (Is .mem (memmoveCode dest dmax src slen)) := by
+  by_cases h1 : slen = 0
+  · simp only [memmove_s, memmoveCode, h1, if_true]; exact is_eok
+  by_cases h2 : dest = 0
+  · simp only [memmove_s, memmoveCode, h1, h2, if_true, if_false]; exact is_failM _ (by decide)
+  by_cases h3 : dmax = 0
+  · simp only [memmove_s, memmoveCode, h1, h2, h3, if_true, if_false]; exact is_failM _ (by decide)
+  by_cases h4 : dmax > RSIZE_MAX_MEM
+  · simp only [memmove_s, memmoveCode, chkDmaxMemB, h1, h2, h3, h4, if_true, if_false]; exact is_failM _ (by decide)
+  by_cases h5 : src = 0
+  · simp only [memmove_s, memmoveCode, chkDmaxMemB, h1, h2, h3, h4, h5, if_true, if_false]
+    exact is_handleMemErrorB _ _ _ _ (by decide)
+  by_cases h6 : slen > dmax
+  · by_cases h7 : slen > RSIZE_MAX_MEM
+    · simp only [memmove_s, memmoveCode, chkDmaxMemB, h1, h2, h3, h4, h5, h6, h7, if_true, if_false]
+      exact is_handleMemErrorB _ _ _ _ (by decide)
+    · simp only [memmove_s, memmoveCode, chkDmaxMemB, h1, h2, h3, h4, h5, h6, h7, if_true, if_false]
+      exact is_handleMemErrorB _ _ _ _ (by decide)
+  · simp only [memmove_s, memmoveCode, chkDmaxMemB, exceeds, Bool.false_eq_true, h1, h2, h3, h4, h5, h6, if_true, if_false]
+    exact is_work_eok (q_mem_prim_move _ _ _)
+
+/-- memmove_s, object sizes unknown: the code is `memmoveCode` of the arguments -/
+theorem memmove_s_meaning (dest dmax src slen : Nat) (st : St) (r : Nat) (st' : St)
+    (he : exec (memmove_s dest dmax src slen none none) st = .ok (r, st')) :
+    r = memmoveCode dest dmax src slen ∧
+      ((r = EOK ∧ st'.events = st.events) ∨ (r ≠ EOK ∧ st'.events = st.events ++ [.handler .mem r])) :=
+  Is.sound (memmove_s_code ..) st r st' he
+
+theorem memmoveCode_eok_iff (dest dmax src slen : Nat) :
+    memmoveCode dest dmax src slen = EOK ↔
+      slen = 0 ∨ (dest ≠ 0 ∧ dmax ≠ 0 ∧ dmax ≤ RSIZE_MAX_MEM ∧ src ≠ 0 ∧ slen ≤ dmax) := by
+  have e1 : ESNULLP ≠ EOK := by decide
+  have e2 : ESLEMAX ≠ EOK := by decide
+  have e3 : ESNOSPC ≠ EOK := by decide
+  have e4 : ESZEROL ≠ EOK := by decide
+  unfold memmoveCode
+  repeat' split
+  all_goals simp only [e1, e2, e3, e4, false_iff, true_iff, not_and, not_or, ne_eq]
+  all_goals omega
+
+/-- non-vacuity: an overlap report of memcpy_s, and the same operands accepted by memmove_s -/
+example : ((exec (memcpy_s 100 4 102 4 none none)
+      { data := fun _ => 7, mapped := fun _ => true, rd := fun _ => true, wr := fun _ => true }).toOption.map
+        (fun x => (x.1, x.2.events))) = some (memcpyCode 100 4 102 4, [.handler .mem ESOVRLP]) := by decide
+example : ((exec (memmove_s 100 4 102 4 none none)
+      { data := fun _ => 7, mapped := fun _ => true, rd := fun _ => true, wr := fun _ => true }).toOption.map
+        (fun x => (x.1, x.2.events))) = some (memmoveCode 100 4 102 4, []) := by decide
+
 end SafeC.Props.C05Meaning
